@@ -126,6 +126,40 @@ def _replaces_in_helper(idx, f, call: ast.Call, P: str) -> bool:
     return bool(rets) and all(replaces(r) or hcfg.must_pass_through(hcfg.entry.id, r.id, replaces) for r in rets)
 
 
+def _stale_import_cleanup_rule(ctx, res) -> None:
+    """R05.18: after a global is moved, every client module has its now-stale import of the source removed -- ALSO a
+    client that imports the name without ever using it (`from pkg.source import f, other`; the name inside a from-import is
+    a fixed primary that the renamer skips, so "the renamer changed nothing" does not mean "nothing to clean up").  In the
+    per-client branch of MoveGlobal the filtered organize_imports is therefore not conditional on the renamer's result."""
+    idx = ctx.idx
+    n = 0
+    for f in sorted(idx.functions.values(), key=lambda f: f.qualname):
+        if f.unit.modname != "rope.refactor.move" or f.cls is None or f.cls.name != "MoveGlobal":
+            continue
+        node = f.node  # (each function on its own: a per-client step extracted into a method is analysed there)
+        results = {t.id for x in walk_local(node) if isinstance(x, ast.Assign) and isinstance(x.value, ast.Call)
+                   and call_name(x.value) == "rename_in_module" for t in x.targets if isinstance(t, ast.Name)}
+        if not results:
+            continue
+        cfg = CFG(node)
+        flags = {t.id for x in walk_local(node) if isinstance(x, ast.Assign) and isinstance(x.value, ast.Compare)
+                 and isinstance(x.value.left, ast.Name) and x.value.left.id in results for t in x.targets if isinstance(t, ast.Name)}
+        for nd in cfg.nodes:
+            if nd.ast is None or nd.kind != "stmt":
+                continue
+            for c in calls_in(nd.ast):
+                if call_name(c) == "organize_imports" and any(k.arg == "import_filter" for k in c.keywords):
+                    n += 1
+                    dep = [t for t, pol in cfg.guards(nd.id) if any(isinstance(y, ast.Name) and y.id in results | flags for y in ast.walk(t))]
+                    ok = not dep
+                    res.add("R05.18", f"{_short(f)}|stale-import-cleanup#{n}", ok, f"{f.unit.rel}:{c.lineno}",
+                            "the stale import of the source module is cleaned up whether or not the renamer changed anything" if ok else
+                            f"the clean-up of stale imports runs only under `{ast.unparse(dep[0])}`, i.e. only when the renamer changed something: a client with "
+                            "`from pkg.source import f, other` that never USES f keeps the line, and importing the client fails (cannot import name 'f')",
+                            function=f.qualname)
+    res.floor("R05.18", "filtered import clean-ups in MoveGlobal clients", n, 1)
+
+
 def _import_filter_folder_rule(ctx, res) -> None:
     """R05.17: while tidying the imports of a module after a move, "does this from-import import the source module" is
     decided by resolving the (possibly relative) import against a folder.  That folder is the folder of the module whose
@@ -185,6 +219,7 @@ def check(ctx, res) -> None:
     _check_main(ctx, res)
     _shared(ctx, res)
     _import_filter_folder_rule(ctx, res)
+    _stale_import_cleanup_rule(ctx, res)
 
 
 def _check_main(ctx, res) -> None:
